@@ -679,6 +679,13 @@ def _filter_ok(flt, market, sim):
     return True
 
 
+def _mode_of(cfg, session_id, state):
+    """(market, withOrderExecution of the configured session) per market of a hk_state record"""
+    ss = cfg["simulation"]["sessions"]
+    on = bool(ss[session_id].get("withOrderExecution", False)) if 0 <= session_id < len(ss) else None
+    return [(x[0], on) for x in state]
+
+
 def acc_C13(w):
     sim = w.runner.simulator
     cfg = w.scn.cfg
@@ -750,6 +757,19 @@ def acc_C13(w):
             V(e[6][0] is None and e[6][1] is None, "C13.before_effect", "a before-order hook saw an order that was already accepted")
         if e[0] == "hk" and e[2] == "cancel" and e[3]:
             V(e[6][0] is None, "C13.before_effect", "a before-cancel hook saw a cancel that was already accepted")
+    # ... also for sessions: what a before-session hook finds (clocks, which markets are matching) is what the after-session
+    # hooks of the session before left -- the new session's mode is not in force yet
+    last_after = None
+    for e in w.ev:
+        if e[0] != "hk_state":
+            continue
+        if not e[2]:
+            last_after = e
+        elif last_after is not None and last_after[3] != e[3]:
+            V(e[4] == last_after[4], "C13.before_effect", "a before-session hook finds the markets in another state (clock, matching on/off) than the one the previous session ended in",
+              "session %s ended with (market, running, time) %s; before-session hook of session %s saw %s" % (last_after[3], list(last_after[4]), e[3], list(e[4])))
+            if any(a[1] != b[1] for a, b in zip(_mode_of(cfg, last_after[3], e[4]), _mode_of(cfg, e[3], e[4]))):
+                w.wit.inc("before_session_hook_at_mode_change")
     # a price written by a before-order hook is the price that gets accepted (after tick rounding)
     altered = {id(e[1]): e[2] for e in w.ev if e[0] == "altered"}
     if altered:
